@@ -89,8 +89,35 @@ G4d == { [fam |-> "G4", gets |-> TRUE, raw_tags |-> <<1004>>, payload |-> 0, sig
                           \o Member(1009, 4, s, 1) \o Member(5009, 5, f, 1)]]
            : s \in Opt3, f \in Opt3, p \in Opt3, c \in {1, 2, 3} }
 
+\* file entries: every per-file tag present / absent / wrongly typed, 32- and 64-bit sizes, capabilities,
+\* digests of the right and of a wrong length, with and without the digest algorithm tag
+Hex64 == [i \in 1..64 |-> IF i % 2 = 0 THEN 97 ELSE 48]
+Hex32 == [i \in 1..32 |-> IF i % 2 = 0 THEN 98 ELSE 49]
+FileTags(nf, v) ==
+    << [tag |-> 1117, type |-> 8, v |-> [i \in 1..nf |-> <<102, 48 + i>>]],
+       [tag |-> 1118, type |-> 8, v |-> << <<47, 111, 112, 116, 47>> >>],
+       [tag |-> 1116, type |-> 4, v |-> [i \in 1..nf |-> <<0, 0>>]] >>
+    \o (IF v.drop = 1030 THEN <<>> ELSE << [tag |-> 1030, type |-> IF v.bad = 1030 THEN 4 ELSE 3, v |-> [i \in 1..nf |-> IF v.bad = 1030 THEN <<0, 33188>> ELSE <<33188>>]] >>)
+    \o (IF v.drop = 1039 THEN <<>> ELSE << [tag |-> 1039, type |-> IF v.bad = 1039 THEN 6 ELSE 8, v |-> [i \in 1..(IF v.bad = 1039 THEN 1 ELSE nf) |-> <<117, 48 + i>>]] >>)
+    \o (IF v.drop = 1040 THEN <<>> ELSE << [tag |-> 1040, type |-> 8, v |-> [i \in 1..nf |-> <<103>>]] >>)
+    \o (IF v.drop = 1035 THEN <<>> ELSE << [tag |-> 1035, type |-> 8, v |-> [i \in 1..nf |-> IF i = 1 THEN v.digest ELSE <<>>]] >>)
+    \o (IF v.drop = 1034 THEN <<>> ELSE << [tag |-> 1034, type |-> IF v.bad = 1034 THEN 3 ELSE 4, v |-> [i \in 1..nf |-> IF v.bad = 1034 THEN <<7>> ELSE <<24414, i>>]] >>)
+    \o (IF v.sizes = 64 THEN << [tag |-> 5008, type |-> 5, v |-> [i \in 1..nf |-> <<0, 1, 0, i>>]] >>
+        ELSE IF v.sizes = 32 THEN << [tag |-> 1028, type |-> 4, v |-> [i \in 1..nf |-> <<0, 10 + i>>]] >> ELSE <<>>)
+    \o (IF v.drop = 1037 THEN <<>> ELSE << [tag |-> 1037, type |-> 4, v |-> [i \in 1..nf |-> <<0, 17>>]] >>)
+    \o (IF v.drop = 1036 THEN <<>> ELSE << [tag |-> 1036, type |-> 8, v |-> [i \in 1..nf |-> <<>>]] >>)
+    \o (IF v.caps THEN << [tag |-> 5010, type |-> 8, v |-> [i \in 1..nf |-> IF i = 1 THEN <<61, 101>> ELSE <<>>]] >> ELSE <<>>)
+    \o (IF v.algo = 0 THEN <<>> ELSE << [tag |-> 5011, type |-> 4, v |-> << <<0, v.algo>> >>] >>)
+FileVariants == { [drop |-> d, bad |-> bd, sizes |-> sz, caps |-> c, algo |-> a, digest |-> dg]
+                    : d \in {0, 1030, 1039, 1040, 1035, 1034, 1037, 1036}, bd \in {0, 1030, 1039, 1034}, sz \in {0, 32, 64},
+                      c \in BOOLEAN, a \in {0, 8, 99}, dg \in {Hex64, Hex32, <<>>} }
+Relevant(v) == (v.drop = 0 \/ v.bad = 0) /\ (v.bad = 0 \/ (v.sizes = 32 /\ ~v.caps /\ v.algo = 8 /\ v.digest = Hex64))
+               /\ (v.drop = 0 \/ (v.sizes = 32 /\ ~v.caps /\ v.algo = 8 /\ v.digest = Hex64))
+G4e == { [fam |-> "G4", gets |-> TRUE, raw_tags |-> <<>>, payload |-> 0, sig |-> [typed |-> <<>>],
+          hdr |-> [typed |-> FileTags(nf, v)]] : nf \in {1, 2}, v \in {x \in FileVariants : Relevant(x)} }
+
 AllCases == SetToSeq(G1) \o SetToSeq(G2a) \o SetToSeq(G2b) \o SetToSeq(G2c) \o SetToSeq(G3a) \o SetToSeq(G3b)
-            \o SetToSeq(G3c) \o SetToSeq(G4a) \o SetToSeq(G4b) \o SetToSeq(G4c) \o SetToSeq(G4d)
+            \o SetToSeq(G3c) \o SetToSeq(G4a) \o SetToSeq(G4b) \o SetToSeq(G4c) \o SetToSeq(G4d) \o SetToSeq(G4e)
 
 VARIABLE done
 Init == done = FALSE
